@@ -21,12 +21,15 @@ var catalog = map[string]c17track{
 	"mlaud": {Name: "audio", Asset: "awsMediaLiveScte35/audio", Init: "init.cmfa", Ext: ".cmfa", Media: "audio"},
 }
 
+var initBytes = map[string][]byte{}
+
 func loadInitInfo() error {
 	for _, t := range catalog {
 		data, err := os.ReadFile(filepath.Join(testdata, t.Asset, t.Init))
 		if err != nil {
 			return err
 		}
+		initBytes[t.Asset+"/"+t.Init] = data
 		f, err := mp4.DecodeFileSR(bits.NewFixedSliceReader(data))
 		if err != nil {
 			return err
@@ -127,6 +130,9 @@ func (tm timing) at(nr int, ts int64) (dts, dur int64) {
 
 func chanOps(tracks []c17track, tm timing, order [][2]int) []c17op {
 	var ops []c17op
+	for i := range tracks {
+		ops = append(ops, c17op{K: "init", Name: i})
+	}
 	for _, u := range order {
 		dts, dur := tm.at(u[1], tsOf(tracks[u[0]]))
 		ops = append(ops, c17op{K: "recv", Name: u[0], Seq: int64(u[1]), Dts: dts, Dur: dur})
@@ -442,7 +448,7 @@ func generate(c *lib.Ctx, rng *rand.Rand) []c17in {
 	}
 
 	// ======== kind 3: channel.receivedSegData with real init segments
-	trackSets := [][]string{{"v500", "a128"}, {"v500", "v800"}, {"mlvid", "mlaud"}, {"v500", "v800", "a128"}, {"v500", "a128", "text"}, {"mlvid", "mlaud", "v800"}}
+	trackSets := [][]string{{"v500", "a128"}, {"v500", "v800"}, {"mlvid", "mlaud"}, {"v500", "v800", "a128"}, {"v500", "a128", "text"}, {"mlvid", "mlaud", "text"}}
 	setsOf := func(T int) [][]string {
 		var l [][]string
 		for _, s := range trackSets {
@@ -575,17 +581,20 @@ func generate(c *lib.Ctx, rng *rand.Rand) []c17in {
 		in := c17in{Kind: 3, W: tsbd, Tracks: tr, Ops: chanOps(tr, tm, order), Gen: gen}
 		if gen == "late-track" && rng.Intn(2) == 0 {
 			// the init segment of the late track also arrives late
-			for k, o := range in.Ops {
-				if o.Name == late {
-					in.Tracks = append([]c17track{}, in.Tracks...)
-					in.Tracks[late].Late = k
-					if k == 0 {
-						in.Tracks[late].Late = 1
-					}
-					in.Gen = "late-track-late-init"
-					break
+			var ops []c17op
+			done := false
+			for _, o := range in.Ops {
+				if o.K == "init" && o.Name == late {
+					continue
 				}
+				if o.K == "recv" && o.Name == late && !done {
+					ops = append(ops, c17op{K: "init", Name: late})
+					done = true
+				}
+				ops = append(ops, o)
 			}
+			in.Ops = ops
+			in.Gen = "late-track-late-init"
 		}
 		add(in)
 	}
@@ -619,9 +628,20 @@ func generate(c *lib.Ctx, rng *rand.Rand) []c17in {
 		// what the upload callback does once the channel is shifted: numbers are recomputed from the time
 		// and items are flagged; the harness flags the uploads of the second half
 		for k := len(in.Ops) / 2; k < len(in.Ops); k++ {
-			in.Ops[k].Sh = true
+			if in.Ops[k].K == "recv" {
+				in.Ops[k].Sh = true
+			}
 		}
 		add(in)
+	}
+	// numbers are uint32 in the implementation: a generated number beyond 2^32 is its wrapped value
+	for i := range ins {
+		for k := range ins[i].Ops {
+			o := &ins[i].Ops[k]
+			o.N &= 0xffffffff
+			o.M &= 0xffffffff
+			o.Seq &= 0xffffffff
+		}
 	}
 	return ins
 }
